@@ -397,7 +397,7 @@ func Gen(seed uint64, tier string) any {
 				}
 			}
 			if f.Name != sc.Files[0].Name && core.Chance(r, 40) {
-				ft.Kind, ft.Once = core.Pick(r, "notexist", "perm", "emfile", "dir", "plainerr", "wrappederr", "staterr"), false
+				ft.Kind, ft.Once = core.Pick(r, "notexist", "perm", "emfile", "dir", "plainerr", "wrappederr", "staterr", "closeerr"), false
 			}
 			if core.Chance(r, 20) {
 				ft.Nth = 1 + r.IntN(2)
@@ -682,7 +682,7 @@ func parseHook(sc *Scenario, faults []simfs.Fault, short int, hook func(string))
 func hardFaults(f *simfs.FS) int {
 	n := 0
 	for k, v := range f.Fired {
-		if k != "short_read" && k != "zero_read" && k != "open_missing" && k != "read_error_wrapping_eof" && k != "read_error_temporary" && k != "stat_error" {
+		if k != "short_read" && k != "zero_read" && k != "open_missing" && k != "read_error_wrapping_eof" && k != "read_error_temporary" && k != "stat_error" && k != "close_error" {
 			n += v
 		}
 	}
@@ -1023,7 +1023,7 @@ func faultyRun(sc *Scenario, res *core.Result, ref *outcome, logf func(string, .
 	fired := 0
 	for k, v := range run.fs.Fired {
 		res.Add("fault."+k, v)
-		if k != "short_read" && k != "zero_read" && k != "open_missing" && k != "read_error_wrapping_eof" && k != "read_error_temporary" && k != "stat_error" {
+		if k != "short_read" && k != "zero_read" && k != "open_missing" && k != "read_error_wrapping_eof" && k != "read_error_temporary" && k != "stat_error" && k != "close_error" {
 			fired += v
 		}
 	}
